@@ -1454,3 +1454,269 @@ Proof.
   - unfold kv. apply no_nl_app; [reflexivity|]. unfold no_nl. rewrite smem_cons. apply digits_no; [apply n_str_digits|reflexivity].
   - apply Forall_app. split; [eapply ballot_lines_no_nl; eauto|constructor; [reflexivity|constructor]].
 Qed.
+
+(* ================================================================ 11. no partial data: what was read does not depend on what follows *)
+Lemma lbind_ok : forall (X Y : Type) (r : lres X) (f : X -> lres Y) y, lbind r f = Ok y -> exists x, r = Ok x /\ f x = Ok y.
+Proof. intros X Y [x| |e] f y H; simpl in H; try discriminate. exists x. split; [reflexivity|exact H]. Qed.
+
+Lemma load_system_app : forall E lg ls junk sc c m o h rest,
+  load_system E lg ls sc c m o = Ok (h, rest) -> load_system E lg (ls ++ junk) sc c m o = Ok (h, rest ++ junk).
+Proof.
+  intros E lg ls junk. induction ls as [|l t IH]; intros sc c m o h rest H; cbn [load_system app] in *; [discriminate|].
+  destruct (parse_header_line l) as [|k v|]; [apply IH; exact H| |discriminate].
+  destruct (str_eqb k s_ballots).
+  - destruct (match o with [] => Some m | _ :: _ => reorder_nicks m o [] end) as [nk|]; [|discriminate].
+    apply lbind_ok in H. destruct H as [sys [H1 H]]. apply lbind_ok in H. destruct H as [nb [H2 H]].
+    rewrite H1, H2. cbn [lbind]. inversion H; subst. reflexivity.
+  - destruct (str_eqb k s_order); [apply IH; exact H|].
+    destruct (str_eqb k s_candidate || str_eqb k s_withdrawn).
+    + destruct (split1 v) as [[nick name]|]; [apply IH; exact H|discriminate].
+    + destruct (sc_put sc k v); [apply IH; exact H|discriminate].
+Qed.
+
+Lemma load_votes_app : forall E lg ord nm ls junk i n acc v,
+  load_votes E lg ord nm ls i n acc = Ok v -> load_votes E lg ord nm (ls ++ junk) i n acc = Ok v.
+Proof.
+  intros E lg ord nm ls junk. induction ls as [|l t IH]; intros i n acc v H; cbn [load_votes app] in *; [discriminate|].
+  destruct (str_eqb (strip l) s_end); [exact H|].
+  destruct (strip l) as [|c s]; [apply IH; exact H|].
+  destruct (words (c :: s)) as [|first more]; [discriminate|].
+  destruct (if last_is 88 first then match parse_multiplier E (removelast first) with Some m => Some (m, more) | None => None end
+            else Some (1 # 1, first :: more)) as [[mult items]|]; [|discriminate].
+  apply lbind_ok in H. destruct H as [vote [H1 H]]. rewrite H1. cbn [lbind]. apply IH. exact H.
+Qed.
+
+(* the file gives a ballot count (it is not in BLT mode) *)
+Definition stv_mode (E : uenv) (ls : list str) : bool :=
+  match load_system E false ls sc_empty [] [] [] with
+  | Ok (h, _) => match h_n_ballots h with Some _ => true | None => false end
+  | _ => false
+  end.
+
+Theorem stv_prefix_stable : forall E bl ls x, stv_load_lines E false bl ls = Ok x -> stv_mode E ls = true ->
+  forall bl' junk, stv_load_lines E false bl' (ls ++ junk) = Ok x.
+Proof.
+  intros E bl ls x H Hm bl' junk. unfold stv_load_lines, stv_mode in *.
+  destruct (load_system E false ls sc_empty [] [] []) as [[h rest]| |e] eqn:Hs; try discriminate.
+  rewrite (load_system_app E false ls junk _ _ _ _ h rest Hs). cbn [lbind] in *.
+  destruct (h_n_ballots h) as [n|]; [|discriminate].
+  apply lbind_ok in H. destruct H as [v [H1 H2]]. rewrite (load_votes_app E false _ _ rest junk 0 n [] v H1). exact H2.
+Qed.
+
+(* ================================================================ 12. no partial data: every ranking names listed candidates *)
+Definition in_range (n : nat) (v : list (list Z * Q)) : Prop :=
+  Forall (fun rw => Forall (fun p => 1 <= p <= Z.of_nat n) (fst rw)) v.
+Definition map_in_range (n : nat) (m : nickmap) : Prop := Forall (fun kv => 1 <= snd kv <= Z.of_nat n) m.
+
+Lemma map_in_range_mono : forall n n' m, (n <= n')%nat -> map_in_range n m -> map_in_range n' m.
+Proof. intros n n' m Hn H. eapply Forall_impl; [|exact H]. intros kv Hkv. simpl in Hkv. lia. Qed.
+
+Lemma aset_in_range : forall n m k p, map_in_range n m -> 1 <= p <= Z.of_nat n -> map_in_range n (aset str_eqb m k p).
+Proof.
+  intros n m k p H Hp. induction H as [|[k' v'] m Hkv Hm IH]; cbn [aset].
+  - constructor; [exact Hp|constructor].
+  - destruct (str_eqb k k'); constructor; try assumption.
+Qed.
+
+Lemma nick_get_in_range : forall n m k p, map_in_range n m -> nick_get m k = Some p -> 1 <= p <= Z.of_nat n.
+Proof.
+  intros n m k p H. unfold nick_get. induction H as [|[k' v'] m Hkv Hm IH]; cbn [aget]; [discriminate|].
+  destruct (str_eqb k k'); [intros Heq; inversion Heq; subst; exact Hkv|exact IH].
+Qed.
+
+Lemma reorder_in_range : forall n m order acc r, map_in_range n m -> map_in_range n acc ->
+  reorder_nicks m order acc = Some r -> map_in_range n r.
+Proof.
+  intros n m order. induction order as [|k t IH]; intros acc r Hm Hacc H; cbn [reorder_nicks] in H.
+  - inversion H; subst. exact Hacc.
+  - destruct (nick_get m k) as [p|] eqn:Hg; [|discriminate].
+    apply (IH (aset str_eqb acc k p) r Hm); [|exact H]. apply aset_in_range; [exact Hacc|exact (nick_get_in_range n m k p Hm Hg)].
+Qed.
+
+Lemma load_system_in_range : forall E lg ls sc c m o h rest, map_in_range (length c) m ->
+  load_system E lg ls sc c m o = Ok (h, rest) -> map_in_range (length (h_cands h)) (h_nicks h).
+Proof.
+  intros E lg ls. induction ls as [|l t IH]; intros sc c m o h rest Hm H; cbn [load_system] in H; [discriminate|].
+  destruct (parse_header_line l) as [|k v|]; [eapply IH; eauto| |discriminate].
+  destruct (str_eqb k s_ballots).
+  - destruct (match o with [] => Some m | _ :: _ => reorder_nicks m o [] end) as [nk|] eqn:Hr; [|discriminate].
+    apply lbind_ok in H. destruct H as [sys [H1 H]]. apply lbind_ok in H. destruct H as [nb [H2 H]].
+    inversion H; subst. cbn [h_cands h_nicks].
+    destruct o; [inversion Hr; subst; exact Hm|]. eapply reorder_in_range; [exact Hm|constructor|exact Hr].
+  - destruct (str_eqb k s_order); [eapply IH; eauto|].
+    destruct (str_eqb k s_candidate || str_eqb k s_withdrawn).
+    + destruct (split1 v) as [[nick name]|]; [|discriminate].
+      eapply IH; [|exact H]. rewrite app_length. cbn [length].
+      apply aset_in_range; [eapply map_in_range_mono; [|exact Hm]; lia|lia].
+    + destruct (sc_put sc k v); [eapply IH; eauto|discriminate].
+Qed.
+
+Lemma lookup_in_range : forall n m items ps, map_in_range n m -> lookup_nicks m items = Some ps ->
+  Forall (fun p => 1 <= p <= Z.of_nat n) ps.
+Proof.
+  intros n m items. induction items as [|it t IH]; intros ps Hm H; cbn [lookup_nicks] in H.
+  - inversion H. constructor.
+  - destruct (nick_get m it) as [p|] eqn:Hg; [|discriminate]. destruct (lookup_nicks m t) as [ps'|] eqn:Hl; [|discriminate].
+    inversion H; subst. constructor; [eapply nick_get_in_range; eauto|apply IH; [exact Hm|reflexivity]].
+Qed.
+
+Lemma insert_forall : forall (P : Z * Z -> Prop) x l, P x -> Forall P l -> Forall P (insert_by_rank x l).
+Proof.
+  intros P x l Hx H. induction H as [|y l Hy Hl IH]; cbn [insert_by_rank]; [constructor; [exact Hx|constructor]|].
+  destruct (snd x <? snd y); constructor; try assumption. constructor; assumption.
+Qed.
+
+Lemma sort_forall : forall (P : Z * Z -> Prop) l, Forall P l -> Forall P (sort_by_rank l).
+Proof.
+  intros P l H. unfold sort_by_rank.
+  assert (Hgen : forall acc, Forall P acc -> Forall P (fold_left (fun a x => insert_by_rank x a) l acc)).
+  { induction H as [|x l Hx Hl IH]; intros acc Hacc; cbn [fold_left]; [exact Hacc|]. apply IH. apply insert_forall; assumption. }
+  apply Hgen. constructor.
+Qed.
+
+Lemma ordered_items_in_range : forall E lg n items pool i acc r, Forall (fun p => 1 <= p <= Z.of_nat n) pool ->
+  Forall (fun cr => 1 <= fst cr <= Z.of_nat n) acc -> ordered_items E lg items pool i acc = Ok r ->
+  Forall (fun cr => 1 <= fst cr <= Z.of_nat n) r.
+Proof.
+  intros E lg n items. induction items as [|it t IH]; intros pool i acc r Hp Hacc H; cbn [ordered_items] in H.
+  - inversion H; subst. exact Hacc.
+  - destruct (guarded_int E lg it) as [g|].
+    + destruct (nth_error pool i) as [c|] eqn:Hn; [|discriminate]. apply lbind_ok in H. destruct H as [rank [_ H]].
+      apply (IH pool (S i) (acc ++ [(c, rank)]) r Hp); [|exact H]. apply Forall_app. split; [exact Hacc|constructor; [|constructor]].
+      cbn [fst]. rewrite Forall_forall in Hp. apply Hp. eapply nth_error_In; eauto.
+    + destruct (str_eqb it [45]); [|discriminate]. eapply IH; eauto.
+Qed.
+
+Lemma ordered_vote_in_range : forall E lg n items pool v, Forall (fun p => 1 <= p <= Z.of_nat n) pool ->
+  ordered_vote E lg items pool = Ok v -> Forall (fun p => 1 <= p <= Z.of_nat n) v.
+Proof.
+  intros E lg n items pool v Hp H. unfold ordered_vote in H. apply lbind_ok in H. destruct H as [co [H1 H2]].
+  cbv zeta in H2. destruct (ranks_are (sort_by_rank co) 1); [|discriminate]. inversion H2; subst.
+  pose proof (sort_forall _ co (ordered_items_in_range E lg n items pool 0 [] co Hp (Forall_nil _) H1)) as Hs.
+  clear - Hs. induction Hs as [|x l Hx Hl IH]; cbn [map]; constructor; assumption.
+Qed.
+
+Lemma badd_in_range : forall n b r w, in_range n b -> Forall (fun p => 1 <= p <= Z.of_nat n) r -> in_range n (badd b r w).
+Proof.
+  intros n b r w H Hr. unfold in_range in *. induction H as [|[r' w'] b Hx Hb IH]; cbn [badd].
+  - constructor; [exact Hr|constructor].
+  - destruct (zlist_eqb r r'); constructor; try assumption.
+Qed.
+
+Lemma load_votes_in_range : forall E lg ord nm n ls i nb acc v, map_in_range n nm -> in_range n acc ->
+  load_votes E lg ord nm ls i nb acc = Ok v -> in_range n v.
+Proof.
+  intros E lg ord nm n ls. induction ls as [|l t IH]; intros i nb acc v Hm Hacc H; cbn [load_votes] in H; [discriminate|].
+  destruct (str_eqb (strip l) s_end); [destruct (i =? nb); [inversion H; subst; exact Hacc|discriminate]|].
+  destruct (strip l) as [|c s]; [eapply IH; eauto|].
+  destruct (words (c :: s)) as [|first more]; [discriminate|].
+  destruct (if last_is 88 first then match parse_multiplier E (removelast first) with Some m => Some (m, more) | None => None end
+            else Some (1 # 1, first :: more)) as [[mult items]|]; [|discriminate].
+  apply lbind_ok in H. destruct H as [vote [H1 H]].
+  apply (IH (i + 1) nb (vadd acc vote mult) v Hm); [|exact H]. apply badd_in_range; [exact Hacc|].
+  destruct ord.
+  - apply (ordered_vote_in_range E lg n items (map snd nm) vote); [|exact H1].
+    clear - Hm. induction Hm as [|kv m Hkv Hm IH]; cbn [map]; constructor; assumption.
+  - destruct (lookup_nicks nm items) as [ps|] eqn:Hl; [|discriminate]. inversion H1; subst. eapply lookup_in_range; eauto.
+Qed.
+
+(* the same for the BLT reader (token-level model) *)
+Definition blt_in_range (y : BallotFile.loaded) : Prop :=
+  match y with (bv, _, bc, _) => in_range (length bc) bv end.
+
+Lemma check_ranking_range : forall n r r', check_ranking false n r = Ok r' -> Forall (fun i => 1 <= i <= n) r'.
+Proof.
+  intros n r. induction r as [|i t IH]; intros r' H; cbn [check_ranking] in H.
+  - inversion H. constructor.
+  - unfold check_index in H. destruct ((1 <=? i) && (i <=? n)) eqn:Hb; [|discriminate].
+    destruct (check_ranking false n t) as [js| |e]; try discriminate. inversion H; subst.
+    apply andb_true_iff in Hb. destruct Hb as [H1 H2]. apply Z.leb_le in H1. apply Z.leb_le in H2.
+    constructor; [lia|apply IH; reflexivity].
+Qed.
+
+Lemma deindex_range : forall n b b', deindex false n b = Ok b' -> Forall (fun rw => Forall (fun i => 1 <= i <= n) (fst rw)) b'.
+Proof.
+  intros n b. induction b as [|[r w] t IH]; intros b' H; cbn [deindex] in H.
+  - inversion H. constructor.
+  - destruct (check_ranking false n r) as [r'| |e] eqn:Hr; try discriminate.
+    destruct (deindex false n t) as [t'| |e]; try discriminate. inversion H; subst.
+    constructor; [cbn [fst]; eapply check_ranking_range; eauto|apply IH; reflexivity].
+Qed.
+
+Theorem blt_loaded_in_range : forall op ls y, BallotFile.load_lines false op ls = Ok y -> blt_in_range y.
+Proof.
+  intros op ls y H. unfold BallotFile.load_lines in H. destruct ls as [|hd body]; [discriminate|].
+  destruct (parse_numline false false hd) as [nums| |e]; try discriminate.
+  destruct nums as [|nc [|ns [|z r]]]; try discriminate.
+  destruct (parse_body false op body [] [] false) as [[[bl wd] rest]| |e]; try discriminate.
+  destruct (parse_strings false rest (Qnum nc)) as [nr| |e]; try discriminate.
+  destruct nr as [names title|s].
+  - match type of H with match deindex false (Z.of_nat (length ?C)) bl with _ => _ end = _ => set (cands := C) in * end.
+    destruct (deindex false (Z.of_nat (length cands)) bl) as [b| |e] eqn:Hd; try discriminate. inversion H; subst.
+    unfold blt_in_range, in_range. eapply deindex_range; eauto.
+  - match type of H with match deindex false (Z.of_nat (length ?C)) bl with _ => _ end = _ => set (cands := C) in * end.
+    destruct (deindex false (Z.of_nat (length cands)) bl) as [b| |e] eqn:Hd; try discriminate. inversion H; subst.
+    unfold blt_in_range, in_range. eapply deindex_range; eauto.
+Qed.
+
+Theorem stv_loaded_in_range : forall E bl ls x, (forall r y, bl r = Ok y -> blt_in_range y) ->
+  stv_load_lines E false bl ls = Ok x -> in_range (length (l_pool x)) (l_votes x).
+Proof.
+  intros E bl ls x Hbl H. unfold stv_load_lines in H. apply lbind_ok in H. destruct H as [[h rest] [Hs H]].
+  pose proof (load_system_in_range E false ls sc_empty [] [] [] h rest (Forall_nil _) Hs) as Hm.
+  destruct (h_n_ballots h) as [n|].
+  - apply lbind_ok in H. destruct H as [v [Hv H]]. inversion H; subst. cbn [l_pool l_votes].
+    eapply load_votes_in_range; [exact Hm|constructor|exact Hv].
+  - unfold finish_blt in H. destruct (bl rest) as [[[[bv bs] bc] bt]| |e] eqn:Hb; try discriminate.
+    pose proof (Hbl rest _ Hb) as Hr. unfold blt_in_range in Hr.
+    destruct (snd (h_system h)); inversion H; subst; cbn [l_pool l_votes]; rewrite map_length; exact Hr.
+Qed.
+
+(* ================================================================ 13. the nickname condition of stv_wf only concerns non-ASCII initials *)
+Lemma word_char_ok : forall c, (48 <= c <= 57 \/ 97 <= c <= 122 \/ c = 95) -> nick_char_ok c = true.
+Proof.
+  intros c H. unfold nick_char_ok.
+  replace (c =? 35) with false by (symmetry; apply Z.eqb_neq; lia).
+  replace (c =? 88) with false by (symmetry; apply Z.eqb_neq; lia).
+  unfold is_space, spaces. cbn [existsb].
+  repeat match goal with |- context [c =? ?k] => replace (c =? k) with false by (symmetry; apply Z.eqb_neq; lia) end.
+  reflexivity.
+Qed.
+
+Lemma ascii_lower_ok : forall E c, c <? 128 = true -> is_word E c = true -> forallb nick_char_ok (lower E c) = true.
+Proof.
+  intros E c Hc Hw. unfold is_word in Hw. rewrite Hc in Hw. unfold lower. rewrite Hc.
+  assert (Hcases : 48 <= c <= 57 \/ 65 <= c <= 90 \/ 97 <= c <= 122 \/ c = 95).
+  { rewrite !orb_true_iff, !andb_true_iff, !Z.leb_le, Z.eqb_eq in Hw. lia. }
+  clear Hw. destruct ((65 <=? c) && (c <=? 90)) eqn:Hu; cbn [forallb]; rewrite andb_true_r; apply word_char_ok.
+  - apply andb_true_iff in Hu. destruct Hu as [H1 H2]. apply Z.leb_le in H1. apply Z.leb_le in H2. lia.
+  - apply andb_false_iff in Hu. destruct Hu as [Hu|Hu]; [apply Z.leb_gt in Hu|apply Z.leb_gt in Hu]; lia.
+Qed.
+
+Lemma ascii_initials_ok : forall E nm, forallb (fun c => c <? 128) nm = true ->
+  forallb nick_char_ok (name_to_initials E nm) = true.
+Proof.
+  intros E nm H. unfold name_to_initials. generalize false. induction nm as [|c t IH]; intros b; cbn [initials_aux]; [reflexivity|].
+  cbn [forallb] in H. apply andb_true_iff in H. destruct H as [Hc Ht].
+  destruct (is_word E c) eqn:Hw; [|apply IH; exact Ht].
+  destruct b; [apply IH; exact Ht|]. rewrite forallb_app, (ascii_lower_ok E c Hc Hw). apply IH. exact Ht.
+Qed.
+
+(* ================================================================ 14. BLT mode: the STV reader hands the rest of the file to the BLT reader *)
+Definition blt_header : header :=
+  {| h_system := (None, EvOther true); h_cands := []; h_nicks := []; h_n_ballots := None; h_ordered := false |}.
+
+Lemma stv_blt_mode : forall E bl rest,
+  stv_load_lines E false bl (blt_mode_lines rest) = finish_blt false blt_header (bl rest).
+Proof. intros E bl rest. reflexivity. Qed.
+
+Lemma stv_blt_mode_ok : forall E bl rest bv bs bc bt, bl rest = Ok (bv, bs, bc, bt) ->
+  stv_load_lines E false bl (blt_mode_lines rest) =
+  Ok {| l_votes := bv;
+        l_system := (match bt with Some t => if nonempty t then Some t else None | None => None end, EvFixed (EvOther true) bs);
+        l_cands := map (fun cw => (cname_str (fst cw), snd cw)) bc;
+        l_pool := map (fun cw => (cname_str (fst cw), snd cw)) bc |}.
+Proof.
+  intros E bl rest bv bs bc bt H. rewrite stv_blt_mode, H. unfold finish_blt, blt_header. cbn [h_system h_cands fst snd].
+  destruct bc; reflexivity.
+Qed.
